@@ -145,6 +145,14 @@ func (h *hostileRun) validTxs() [][]byte {
 	add(web3.NewTrxSetDoc(kr.Addr(4), s.nonce(4), s.gas(), s.price(), "n", "u"), 4)
 	add(web3.NewTrxVoting(kr.Addr(2), types.ZeroAddress(), s.nonce(2), s.gas(), s.price(), randBytes(h.rng, 32), 0), 2)
 	add(web3.NewTrxUnstaking(kr.Addr(1), kr.Addr(1), s.nonce(1), s.gas(), s.price(), randBytes(h.rng, 32)), 1)
+	// well-formed un-staking of stakes that exist (the validators' own genesis stakes, the delegation made in the set-up)
+	for _, pr := range [][2]int{{2, 2}, {3, 3}, {4, 1}} {
+		if ids := s.StakeIDs(pr[0], pr[1]); len(ids) > 0 {
+			add(web3.NewTrxUnstaking(kr.Addr(pr[0]), kr.Addr(pr[1]), s.nonce(pr[0]), s.gas(), s.price(), kr.HashOf(ids[0])), pr[0])
+		}
+	}
+	add(s.TxStake(5, 2, "1e18"), 5)
+	add(s.TxStake(2, 2, "1e18"), 2)
 	add(web3.NewTrxContract(kr.Addr(4), types.ZeroAddress(), s.nonce(4), 100000, s.price(), uint256.NewInt(0), []byte{0x60, 0x00, 0x60, 0x00, 0xf3}), 4)
 	return out
 }
@@ -481,6 +489,20 @@ func RunHostile(seed int64, rounds int, tmp string, emit func(J)) (map[string]in
 		s.Last = nil
 		s.End()
 		emit(J{"ev": "Sync", "state": h.stateTok()})
+		if s.R.Dead == "" && round%2 == 0 {
+			// a restarted process serves the mempool and queries before it has executed a block: volatile structures
+			// (stake limiter, caches) are in their freshly rebuilt state
+			s.Last = nil
+			s.Restart()
+			emit(J{"ev": "Sync", "state": h.stateTok()})
+			for _, bz := range h.validTxs() {
+				h.tx("CheckTx", bz, "valid-after-restart")
+			}
+			for _, bz := range h.hostileFields(h.validTxs()[:3]) {
+				h.tx("CheckTx", bz, "field-after-restart")
+			}
+			h.queries()
+		}
 	}
 	// what was accepted above is settled (voting windows close, proposals are applied) in the following blocks
 	for i := 0; i < 10 && s.R.Dead == ""; i++ {
